@@ -13,10 +13,10 @@ IDENT_ADAPTORS = ('iter', 'into_iter', 'deref', 'iter_mut', 'by_ref', 'as_slice'
 
 
 class Nest:
-    def __init__(self, facts, body, yields=True):
+    def __init__(self, facts, body, yields=True, collects=False):
         self.f = facts
         self.orig = body
-        self.b = facts.nest_form(body, yields=yields)
+        self.b = facts.nest_form(body, yields=yields, collects=collects)
         self.cfg = CFG(self.b)
         self.tr = Tracer(self.b)
         self.loops = for_loops(self.b, self.cfg, self.tr)
